@@ -57,6 +57,24 @@ Definition read_header (stream : list N) : hres :=
   if N.of_nat (length stream) <? header_sz then HErr ErrShort
   else hdr_decode (firstn 10 stream).
 
+(* The transport may hand the 10 bytes over in pieces: each conn.Read returns (part of) the
+   next piece, possibly nothing.  io.ReadFull(conn, buf) = ReadAtLeast: keep calling
+   conn.Read(buf[got:]) and append what arrives until len(buf) bytes are there; a Read never
+   returns more than fits, the rest of a piece stays in the connection.  [read_full need chunks]
+   is the content of buf[:got] when ReadFull stops (full, or the connection is exhausted). *)
+Fixpoint read_full (need : nat) (chunks : list (list N)) : list N :=
+  match chunks with
+  | [] => []
+  | c :: rest =>
+      if Nat.leb need (length c) then firstn need c
+      else c ++ read_full (need - length c) rest
+  end.
+
+(* Client.readHeader over a connection that delivers [chunks] one Read at a time, then EOF *)
+Definition read_header_chunks (chunks : list (list N)) : hres :=
+  let buf := read_full 10 chunks in
+  if Nat.ltb (length buf) 10 then HErr ErrShort else hdr_decode buf.
+
 (* validateHeader(payloadLen, typ): nil iff
      !(typ > maxMsgType) && !(msgResvStart <= typ && typ <= msgResvEnd) && !(payloadLen > maxPayloadSz) *)
 Definition validate_header (len typ : N) : bool :=
